@@ -279,6 +279,44 @@ func emitLockFacts(c *Ctx) (string, error) {
 	}
 	// the SDK's simapp etc. are not linked into provenance; only x/ is scanned above.
 
+	// 4b. production call sites of the hold keeper's AddHold (outside x/hold), and whether
+	// CreatePayment calls payment.Validate() before it
+	addHold, err := scanCalls(c, filepath.Join(c.Repo, "x"), c.Repo, false, func(_ *ast.File, pkg, q, name string) (string, bool) {
+		return "AddHold", name == "AddHold" && q != ""
+	})
+	if err != nil {
+		return "", err
+	}
+	var addHoldProd []lockCall
+	for _, x := range addHold {
+		if !strings.HasPrefix(x.File, "x/hold/") {
+			addHoldProd = append(addHoldProd, x)
+		}
+	}
+	validatesFirst := false
+	if pf, err := parser.ParseFile(c.Fset, filepath.Join(c.Repo, "x", "exchange", "keeper", "payments.go"), nil, 0); err == nil {
+		for _, d := range pf.Decls {
+			fd, ok := d.(*ast.FuncDecl)
+			if !ok || fd.Name.Name != "CreatePayment" || fd.Body == nil {
+				continue
+			}
+			sawValidate := false
+			ast.Inspect(fd.Body, func(n ast.Node) bool {
+				call, ok := n.(*ast.CallExpr)
+				if !ok {
+					return true
+				}
+				switch c.src(call.Fun) {
+				case "payment.Validate":
+					sawValidate = true
+				case "k.holdKeeper.AddHold":
+					validatesFirst = sawValidate
+				}
+				return true
+			})
+		}
+	}
+
 	// 5. wiring in app/app.go
 	appFile, err := parser.ParseFile(c.Fset, filepath.Join(c.Repo, "app", "app.go"), nil, 0)
 	if err != nil {
@@ -332,6 +370,8 @@ func emitLockFacts(c *Ctx) (string, error) {
 	writeCalls("holdBypassCalls", "every call of hold.WithBypass in the repository", holdBypass)
 	writeCalls("vestingBypassCalls", "every call of banktypes.WithVestingLockedBypass (repository and sdk:x/, non-test)", append(vest1, vest2...))
 	writeCalls("lockedGetterCalls", "every Append/Prepend/ClearLockedCoinsGetter call (repository and sdk:x/, non-test)", append(get1, get2...))
+	writeCalls("addHoldCalls", "every call of the hold keeper's AddHold outside x/hold (non-test)", addHoldProd)
+	fmt.Fprintf(&sb, "/-- does the exchange keeper's CreatePayment call payment.Validate() before AddHold -/\ndef validatesBeforeAddHold : List (String × Bool) := [(\"CreatePayment\", %s)]\n\n", leanBool(validatesFirst))
 	sb.WriteString("/-- constructor calls assigned to app.BankKeeper / app.HoldKeeper in app/app.go -/\ndef appWiring : List Wiring := [\n")
 	for i, w := range wires {
 		sep := ","
